@@ -8,6 +8,10 @@ open Region
 class HasEqv (V : Type) where
   eqv : V → V → Bool
 
+instance : HasEqv F64 := ⟨F64.eq⟩
+/-- Rust `==` for payloads with structural equality -/
+instance (priority := low) eqvOfDecEq {V : Type} [DecidableEq V] : HasEqv V := ⟨fun a b => decide (a = b)⟩
+
 /-- element-wise lifting of a relation to lists (core has no `List.Forall₂`) -/
 def listRel {α : Type} (s : α → α → Prop) : List α → List α → Prop
   | [], [] => True
